@@ -58,9 +58,10 @@ def cases(ctx):
         c["consumer"] = rng.choice(CONSUMERS)
         yield c
     # rasters of more than a million cells (block-wise / size-dependent code paths), checked vectorised
-    for i in range(ctx.n(2, 16)):
-        yield {"kind": "big", "cmd": BIG_CMDS[i % len(BIG_CMDS)], "shape": list(BIG_SHAPES[(i // len(BIG_CMDS) + i) % len(BIG_SHAPES)]), "rseed": rng.randrange(10 ** 9),
-               "masked": i % 3 != 0}
+    for i in range(ctx.n(3, 16)):
+        j = i * ctx.nshards + ctx.shard
+        yield {"kind": "big", "cmd": BIG_CMDS[j % len(BIG_CMDS)], "shape": list(BIG_SHAPES[(j // len(BIG_CMDS) + j) % len(BIG_SHAPES)]), "rseed": rng.randrange(10 ** 9),
+               "masked": j % 3 != 0}
     from mpv import models
     for i in range(ctx.n(300, 15000)):
         yield {"kind": "model", "model": models.gen_model(rng, n_ops=rng.randint(2, 12), sinks=rng.random() < 0.5, libs="nc" if i % 3 == 0 else "csv",
